@@ -225,6 +225,19 @@ Proof.
 Qed.
 Print Assumptions C02_tune_vanishing.
 
+(* detailed balance WITHOUT positivity: targets vanishing on part of the space (log-density -inf) and proposals with bounded
+   support (Uniform); from a zero-density state every proposed move is accepted, a move into a zero-density region never is *)
+Theorem C02_detailed_balance_nonneg : forall (A : Type) (pi : A -> Q) (q : A -> A -> Q),
+  (forall x, 0 <= pi x)%Q -> (forall x y, 0 <= q x y)%Q ->
+  forall x y, (pi x * q x y * alpha0 A pi q x y == pi y * q y x * alpha0 A pi q y x)%Q /\
+              ((pi x == 0)%Q -> alpha0 A pi q x y = 1%Q) /\
+              ((0 < pi x * q x y)%Q -> (pi y == 0)%Q -> (alpha0 A pi q x y == 0)%Q).
+Proof.
+  intros A pi q Hp Hq x y. split; [exact (detailed_balance_nonneg A pi q Hp Hq x y)|].
+  split; [exact (alpha0_zero_density A pi q x y) | exact (alpha0_into_zero A pi q x y)].
+Qed.
+Print Assumptions C02_detailed_balance_nonneg.
+
 (* reversibility INCLUDING the rejection atom as an identity between measures on rectangles X x Y of any finite lattice
    (hence of every refinement): sum_{x in X} pi(x) K(x,Y) = sum_{y in Y} pi(y) K(y,X); with X the whole lattice: (pi K)(Y) = pi(Y).
    This is the strongest form proved; the limit of lattice refinements (continuous state space) is not formalised. *)
@@ -290,6 +303,17 @@ Theorem C02_cache_consistent : forall (logd : vec -> ext) (grad : vec -> vec) (k
   consistent logd grad k (s_st (run_ops logd grad k S ops)).
 Proof. intros logd grad k ops S. exact (run_ops_consistent logd grad k ops S). Qed.
 Print Assumptions C02_cache_consistent.
+
+(* the state a sampler starts from (point, its log-density, its gradient) is consistent, so the invariant above holds
+   after every history of a freshly initialised sampler with no further hypothesis on the starting state *)
+Theorem C02_cache_consistent_from_init : forall (logd : vec -> ext) (grad : vec -> vec) (k : kernel) (ops : list op) (x0 sc : vec),
+  Forall (op_ok logd grad k) ops ->
+  consistent logd grad k (s_st (run_ops logd grad k (mkS (mkSt x0 (logd x0) (grad x0)) sc) ops)).
+Proof.
+  intros logd grad k ops x0 sc H. apply (run_ops_consistent logd grad k ops); [|exact H].
+  split; [reflexivity | intros _; reflexivity].
+Qed.
+Print Assumptions C02_cache_consistent_from_init.
 
 Theorem C02_tune_keeps_state : forall (logd : vec -> ext) (grad : vec -> vec) (k : kernel) (S : sampler) (sc : vec),
   s_st (apply_op logd grad k S (OTune sc)) = s_st S.
